@@ -187,8 +187,10 @@ func chainProblem(v interface{}) string {
 		if t, ok := c.(erro.Traceable); ok && !erro.CauseBy(err, t) {
 			return fmt.Sprintf("CauseBy(err, node %d) is false for a node on err's own chain", n)
 		}
-		if strings.HasSuffix(reflect.TypeOf(c).String(), "erro.TraceableError") && erro.Cause(c) == nil && n == 1 && strings.Contains(c.Error(), "cause by") {
-			return "message names a cause but Cause() is nil"
+		if strings.HasSuffix(reflect.TypeOf(c).String(), "erro.TraceableError") && erro.Cause(c) == nil {
+			// a TraceableError is the wrapper that retells another error: where the chain ends in one, the typed cause
+			// it was made from cannot be reached
+			return fmt.Sprintf("the chain ends (node %d) in a *erro.TraceableError without a cause: the typed cause is not reachable", n)
 		}
 	}
 	return ""
